@@ -47,6 +47,15 @@ func genC10(r *Rng, tier string, idx int) *Plan {
 		k.IDTokenTTL = 400 * 86400 // tokens stay fresh: only the session limits are in play
 		k.OmitExpiresIn = true
 		k.Refresh = "none"
+		if idx%8 == 7 && abs > 5 {
+			// ... or tokens that expire several times inside the absolute limit and are refreshed: refreshing is a
+			// use of the session, it must not move the absolute limit
+			k.IDTokenTTL = abs / 3
+			k.ExpiresIn = abs / 3
+			k.OmitExpiresIn = false
+			k.Refresh = []string{"static", "rotate"}[r.Intn(2)]
+			p.Mode = "system"
+		}
 		t := genTarget(r)
 		id := 0
 		nid := func() int { id++; return id }
